@@ -40,6 +40,134 @@ structure HonestFor (c : Cfg) (key : Dig) (vrf : VrfTable) (t : CRoot) (u : Byte
   stale_stamp : ∀ ver l lf, vrf.get? ⟨u, false, ver⟩ = some l → lf ∈ t.leaves → lf.lbl = l.bits →
       lf.value = c.staleValue ∧ ∃ w ∈ vs, w.version = ver + 1 ∧ lf.ep = w.epoch
 
+/-! ### consequences of `VersionsOK` -/
+
+theorem VersionsOK.mem_index {vs : List Spec.Ver} (h : VersionsOK vs) {v : Spec.Ver} (hv : v ∈ vs) :
+    ∃ i, ∃ hi : i < vs.length, vs[i] = v ∧ v.version = i + 1 := by
+  obtain ⟨i, hi, rfl⟩ := List.getElem_of_mem hv
+  exact ⟨i, hi, rfl, h.1 i hi⟩
+
+/-- a version number determines the entry -/
+theorem VersionsOK.unique {vs : List Spec.Ver} (h : VersionsOK vs) {v w : Spec.Ver}
+    (hv : v ∈ vs) (hw : w ∈ vs) (e : v.version = w.version) : v = w := by
+  obtain ⟨i, hi, rfl, h1⟩ := h.mem_index hv
+  obtain ⟨j, hj, rfl, h2⟩ := h.mem_index hw
+  have : i = j := by omega
+  subst this; rfl
+
+/-- the entry with version `i+1` sits at index `i` -/
+theorem VersionsOK.getElem_of_version {vs : List Spec.Ver} (h : VersionsOK vs) {v : Spec.Ver}
+    (hv : v ∈ vs) : ∃ hi : v.version - 1 < vs.length, vs[v.version - 1] = v ∧ 1 ≤ v.version := by
+  obtain ⟨i, hi, rfl, h1⟩ := h.mem_index hv
+  have e : (vs[i]).version - 1 = i := by omega
+  exact ⟨by omega, by simp only [e], by omega⟩
+
+/-- an entry without a successor is the last one -/
+theorem VersionsOK.getLast_of_no_succ {vs : List Spec.Ver} (h : VersionsOK vs) {v : Spec.Ver}
+    (hv : v ∈ vs) (hno : ∀ w ∈ vs, w.version ≠ v.version + 1) : vs.getLast? = some v := by
+  obtain ⟨i, hi, rfl, h1⟩ := h.mem_index hv
+  have hlast : i + 1 = vs.length := by
+    rcases Nat.lt_or_ge (i + 1) vs.length with hlt | hge
+    · exact absurd (by rw [h.1 (i + 1) hlt, h1]) (hno vs[i + 1] (List.getElem_mem _))
+    · omega
+  rw [List.getLast?_eq_getElem?]
+  have : vs.length - 1 = i := by omega
+  rw [this, List.getElem?_eq_getElem hi]
+
+/-! ### what each accepted base check means against an honest tree -/
+
+section Bound
+variable {c : Cfg} {key : Dig} {vrf : VrfTable} {t : CRoot} {u : Bytes} {vs : List Spec.Ver}
+
+/-- an accepted fresh-label existence proof with value, nonce and epoch is bound to the true
+version, value and epoch -/
+theorem bound_strict (hc : c.Lawful) (h256 : C05.Leaves256 t) (hon : HonestFor c key vrf t u vs)
+    {value : Bytes} {ep : Nat} {nonce : Dig} {ver : Nat} {pf : VrfProof} {mp : MembershipProof}
+    (h : Verify.existenceWithVal c vrf (t.rootHash c) u value ep nonce true ver pf mp = .ok ()) :
+    ∃ v ∈ vs, v.version = ver ∧ value = v.value ∧ ep = v.epoch := by
+  obtain ⟨h1, h2, h3⟩ := Snd.existenceWithVal_ok h
+  obtain ⟨lf, hlf, hl, hval, hep⟩ := Snd.leaf_of_membership c hc t h256 mp _ _ h1 h3
+  obtain ⟨v, hv, hver, hval', hep'⟩ := hon.fresh_only ver mp.label lf h2 hlf hl
+  refine ⟨v, hv, hver, ?_, ?_⟩
+  · exact (hc.commit_inj _ _ _ _ (hval.symm.trans hval')).1
+  · exact hep.symm.trans hep'
+
+/-- an accepted fresh-label existence proof (any digest) is bound to a true version -/
+theorem bound_version (hc : c.Lawful) (hfresh : C05.EmptyLabelFresh c) (hv : VrfOK vrf)
+    (hwf : t.WF) (h256 : C05.Leaves256 t) (hon : HonestFor c key vrf t u vs)
+    {ver : Nat} {pf : VrfProof} {mp : MembershipProof}
+    (h : Verify.existence c vrf (t.rootHash c) u true ver pf mp = .ok ()) :
+    ∃ v ∈ vs, v.version = ver := by
+  obtain ⟨h2, h3⟩ := Snd.existence_ok h
+  obtain ⟨lf, hlf, hl⟩ := Snd.leaf_of_membership_256 c hc hfresh t hwf h256 mp (hv.len _ _ h2) h3
+  obtain ⟨v, hv', hver, -, -⟩ := hon.fresh_only ver mp.label lf h2 hlf hl
+  exact ⟨v, hv', hver⟩
+
+/-- an accepted stale-label existence proof with epoch `ep`: the next version exists and was
+published in `ep` -/
+theorem bound_stale (hc : c.Lawful) (h256 : C05.Leaves256 t) (hon : HonestFor c key vrf t u vs)
+    {ep : Nat} {ver : Nat} {pf : VrfProof} {mp : MembershipProof}
+    (h : Verify.existenceWithCommitment c vrf (t.rootHash c) u c.staleValue ep false ver pf mp = .ok ()) :
+    ∃ w ∈ vs, w.version = ver + 1 ∧ ep = w.epoch := by
+  obtain ⟨h1, h2, h3⟩ := Snd.existenceWithCommitment_ok h
+  obtain ⟨lf, hlf, hl, -, hep⟩ := Snd.leaf_of_membership c hc t h256 mp _ _ h1 h3
+  obtain ⟨-, w, hw, hver, hep'⟩ := hon.stale_stamp ver mp.label lf h2 hlf hl
+  exact ⟨w, hw, hver, hep.symm.trans hep'⟩
+
+/-- an accepted fresh-label non-existence proof: that version does not exist -/
+theorem absent_fresh (hc : c.Lawful) (hfresh : C05.EmptyLabelFresh c) (hv : VrfOK vrf)
+    (hwf : t.WF) (h256 : C05.Leaves256 t) (hon : HonestFor c key vrf t u vs)
+    {ver : Nat} {pf : VrfProof} {np : NonMembershipProof}
+    (h : Verify.nonexistence c vrf (t.rootHash c) u true ver pf np = .ok ()) :
+    ∀ v ∈ vs, v.version ≠ ver := by
+  obtain ⟨h2, h3⟩ := Snd.nonexistence_ok h
+  intro v hv' hver
+  obtain ⟨l, hl, hmem⟩ := hon.fresh_present v hv'
+  rw [hver, h2] at hl
+  injection hl with hl
+  subst hl
+  exact Snd.no_leaf_of_nonmembership c hc hfresh t hwf h256 np (hv.len _ _ h2) h3 _ hmem rfl
+
+/-- an accepted stale-label non-existence proof: that version has not been superseded -/
+theorem absent_stale (hc : c.Lawful) (hfresh : C05.EmptyLabelFresh c) (hv : VrfOK vrf)
+    (hwf : t.WF) (h256 : C05.Leaves256 t) (hon : HonestFor c key vrf t u vs)
+    {ver : Nat} {pf : VrfProof} {np : NonMembershipProof}
+    (h : Verify.nonexistence c vrf (t.rootHash c) u false ver pf np = .ok ()) :
+    ∀ w ∈ vs, w.version ≠ ver + 1 := by
+  obtain ⟨h2, h3⟩ := Snd.nonexistence_ok h
+  intro w hw hver
+  obtain ⟨lf, hlf, hl⟩ := (hon.stale_iff ver np.label h2).mpr ⟨w, hw, hver⟩
+  exact Snd.no_leaf_of_nonmembership c hc hfresh t hwf h256 np (hv.len _ _ h2) h3 lf hlf hl
+
+end Bound
+
+/-- the checks of an accepted lookup proof -/
+theorem lookup_ok {c : Cfg} {vrf : VrfTable} {root : Dig} {E : Nat} {u : Bytes} {π : LookupProof}
+    {r : Verify.VerifyResult} (h : Verify.lookup c vrf root E u π = .ok r) :
+    π.version ≤ E ∧ π.version ≠ 0 ∧ r = ⟨π.epoch, π.version, π.value⟩ ∧
+    Verify.existenceWithVal c vrf root u π.value π.epoch π.commitmentNonce true π.version
+      π.existenceVrf π.existence = .ok () ∧
+    Verify.existence c vrf root u true (Dir.markerVersion π.version) π.markerVrf π.marker = .ok () ∧
+    Verify.nonexistence c vrf root u false π.version π.freshnessVrf π.freshness = .ok () := by
+  unfold Verify.lookup at h
+  split at h
+  · cases h
+  rename_i h0
+  split at h
+  · cases h
+  rename_i h1
+  split at h
+  · cases h
+  rename_i h2
+  split at h
+  · cases h
+  rename_i h3
+  split at h
+  · cases h
+  rename_i h4
+  injection h with h
+  exact ⟨Nat.le_of_not_gt h0, h2, h.symm, h1, h3, h4⟩
+
 /-- **lookup soundness** (full strength): whatever proof is accepted against the honest root
 reports the latest version, its value and the epoch of that update -/
 theorem lookup_sound (c : Cfg) (hc : c.Lawful) (hfresh : C05.EmptyLabelFresh c)
@@ -49,7 +177,12 @@ theorem lookup_sound (c : Cfg) (hc : c.Lawful) (hfresh : C05.EmptyLabelFresh c)
     (E : Nat) (π : LookupProof) (r : Verify.VerifyResult)
     (hacc : Verify.lookup c vrf (t.rootHash c) E u π = .ok r) :
     ∃ last, vs.getLast? = some last ∧ r = ⟨last.epoch, last.version, last.value⟩ := by
-  sorry
+  obtain ⟨-, -, hr, hex, -, hnon⟩ := lookup_ok hacc
+  obtain ⟨v, hmem, hver, hval, hep⟩ := bound_strict hc h256 hon hex
+  have hno := absent_stale hc hfresh hv hwf h256 hon hnon
+  rw [← hver] at hno
+  refine ⟨v, hon.versions.getLast_of_no_succ hmem hno, ?_⟩
+  rw [hr, hver, hval, hep]
 
 /-- in particular nothing is accepted for a label that was never published -/
 theorem lookup_unpublished_rejected (c : Cfg) (hc : c.Lawful) (hfresh : C05.EmptyLabelFresh c)
@@ -58,11 +191,14 @@ theorem lookup_unpublished_rejected (c : Cfg) (hc : c.Lawful) (hfresh : C05.Empt
     (u : Bytes) (hon : HonestFor c key vrf t u [])
     (E : Nat) (π : LookupProof) :
     ∀ r, Verify.lookup c vrf (t.rootHash c) E u π ≠ .ok r := by
-  sorry
+  intro r hacc
+  obtain ⟨last, hl, -⟩ := lookup_sound c hc hfresh key vrf hv t hwf h256 u [] hon E π r hacc
+  simp at hl
 
 /-- a version greater than the current epoch is rejected outright -/
 theorem lookup_version_gt_epoch (c : Cfg) (vrf : VrfTable) (root : Dig) (E : Nat) (u : Bytes) (π : LookupProof)
     (h : π.version > E) : Verify.lookup c vrf root E u π = .error .lookup := by
-  sorry
+  unfold Verify.lookup
+  rw [if_pos h]
 
 end Akd.C06
